@@ -3,6 +3,7 @@
 #include "runner.h"
 #include "world.h"
 #include "coapx.h"
+#include "r10.h"
 #include <arpa/inet.h>
 
 namespace {
@@ -22,6 +23,7 @@ struct HCall {
   int method;
   r1::Msg seen;
   bool has_query;
+  std::string query;
 };
 
 struct Reply {
@@ -68,6 +70,7 @@ void hnd(coap_resource_t *resource, coap_session_t *, const coap_pdu_t *request,
   c.method = (int)coap_pdu_get_code(request);
   c.seen = cx::msg_from_pdu(request);
   c.has_query = query != nullptr;
+  if (query) c.query.assign((const char *)query->s, query->length);
   Bytes tok = c.seen.token;
   g->calls[tok].push_back(c);
   g->w.log("HANDLER res=%d method=%d tok=%s", c.res_id, c.method, hex(tok).c_str());
@@ -229,7 +232,9 @@ struct C10 : Property {
       for (int k = 0; k < n; k++) { Bytes s; int l = (int)r.range(0, 4); for (int q = 0; q < l; q++) s.push_back((uint8_t)("abcxyz/%? 09"[r.below(12)])); segs.push_back(s); }
     }
     for (auto &s : segs) m.opts.push_back({r1::O_URI_PATH, s});
+    if (r.chance(0.06)) m.opts.push_back({r1::O_URI_QUERY, Bytes{}});                  // "?&a=1": an empty first argument
     if (r.chance(0.25)) m.opts.push_back({r1::O_URI_QUERY, Bytes{'a', '=', '1'}});
+    if (r.chance(0.06)) m.opts.push_back({r1::O_URI_QUERY, Bytes{}});                  // "a=1&&b": an empty argument in the middle / at the end
     if (r.chance(0.08)) m.opts.push_back({r1::O_URI_QUERY, Bytes{'b', '&', '/'}});
     if (r.chance(0.10)) m.opts.push_back({r1::O_IF_NONE_MATCH, {}});
     if (m.code == 5 ? r.chance(0.6) : r.chance(0.1)) m.opts.push_back({r1::O_CONTENT_FORMAT, r.chance(0.5) ? Bytes{} : Bytes{50}});
@@ -442,6 +447,13 @@ struct C10 : Property {
         if (c.seen.token != want.token) bad("handler_saw_other_token", "token", "handler saw " + c.seen.str());
         if (c.has_query != (want.count(r1::O_URI_QUERY) > 0 && !(want.count(r1::O_URI_QUERY) == 1 && want.find(r1::O_URI_QUERY)->val.empty())))
           bad("handler_query", "query", strfmt("query argument %s", c.has_query ? "present" : "absent"));
+        else if (c.has_query) {
+          // the query string the handler gets is the reference composition of the Uri-Query options (RFC 7252 6.5)
+          std::vector<Bytes> qs;
+          for (auto &o : want.opts) if (o.num == r1::O_URI_QUERY) qs.push_back(o.val);
+          std::string wq = r10::segments_to_query(qs);
+          if (c.query != wq) bad("handler_query", "query_text", "handler got query '" + c.query + "', the options compose to '" + wq + "'");
+        }
       }
       // expected reply
       for (const Reply *rp : rs) {
